@@ -356,6 +356,10 @@ class t2grid(object):
         """
         self.empty()
         self.add_rocktype(rocktype()) # add default rock type
+        # make sure the geometry's block and connection name lists are up to date
+        # (e.g. after delete_column(), delete_layer() or assigning column surfaces):
+        geo.setup_block_name_index()
+        geo.setup_block_connection_name_index()
         self.add_blocks(geo, blockmap)
         self.add_connections(geo, blockmap)
         return self
